@@ -222,11 +222,14 @@ func (s *CAServer) Calls() []CASeen {
 
 // CAGroup is a set of endpoints sharing one port.
 type CAGroup struct {
-	Port    int
-	Servers []*CAServer
-	seq     int
-	smu     sync.Mutex
-	round   int
+	reserve net.Listener
+	// LateFailed: an endpoint that was to come up in a later round could not bind its address.
+	LateFailed bool
+	Port       int
+	Servers    []*CAServer
+	seq        int
+	smu        sync.Mutex
+	round      int
 }
 
 // Round / SetRound: the round number selects Behaviour (0) or Later (>= 1) of every endpoint.
@@ -240,19 +243,37 @@ func (g *CAGroup) SetRound(r int) {
 	g.smu.Lock()
 	g.round = r
 	g.smu.Unlock()
+	if r < 1 {
+		return
+	}
+	// connection-level changes: an endpoint without listener comes up, a listening one goes away
+	for _, s := range g.Servers {
+		switch {
+		case s.Spec.Behaviour == "nolistener" && s.Spec.Later != "" && s.Spec.Later != "nolistener" && s.srv == nil:
+			if err := g.startServer(s); err != nil {
+				g.LateFailed = true
+			}
+		case s.Spec.Later == "nolistener" && s.srv != nil:
+			s.srv.Stop()
+			s.ln.Close()
+			s.srv, s.ln = nil, nil
+		}
+	}
 }
 
 // StartCAGroup starts the endpoints (those with Behaviour "nolistener" are left unbound).
 func StartCAGroup(specs []CAServerSpec) (*CAGroup, error) {
-	f := Farm()
+	Farm()
 	for attempt := 0; attempt < 8; attempt++ {
 		probe, err := net.Listen("tcp", "127.0.0.1:0")
 		if err != nil {
 			return nil, err
 		}
 		port := probe.Addr().(*net.TCPAddr).Port
-		probe.Close()
-		g := &CAGroup{Port: port}
+		// the probe listener on 127.0.0.1 (never an endpoint address) is kept for the life of the group:
+		// it reserves the port number against every other harness process probing the same way, so that
+		// an unbound ("no listener") address of this group can never be served by a parallel shard
+		g := &CAGroup{Port: port, reserve: probe}
 		ok := true
 		for _, sp := range specs {
 			s := &CAServer{Spec: sp, seq: &g.seq, smu: &g.smu, grp: g}
@@ -260,45 +281,10 @@ func StartCAGroup(specs []CAServerSpec) (*CAGroup, error) {
 			if sp.Behaviour == "nolistener" {
 				continue
 			}
-			ln, err := net.Listen("tcp", fmt.Sprintf("%s:%d", sp.IP, port))
-			if err != nil {
+			if err := g.startServer(s); err != nil {
 				ok = false
 				break
 			}
-			s.ln = ln
-			id := sp.Identity
-			if id == "" {
-				id = "caA"
-			}
-			cfg := &tls.Config{Certificates: []tls.Certificate{f.ServerCert(id, sp.IP)}, MinVersion: sp.MinTLS, MaxVersion: sp.MaxTLS}
-			if cfg.MinVersion == 0 {
-				cfg.MinVersion = tls.VersionTLS10
-			}
-			otherPool := x509.NewCertPool()
-			otherPool.AddCert(f.cas["caForeign"])
-			switch sp.ClientAuth {
-			case "request-otherca": // asks, names a CA that did not issue the RA's certificate, enforces nothing
-				cfg.ClientAuth = tls.RequestClientCert
-				cfg.ClientCAs = otherPool
-			case "verifyifgiven": // verifies what it gets against the right client CA
-				cfg.ClientAuth = tls.VerifyClientCertIfGiven
-				pool := x509.NewCertPool()
-				pool.AddCert(f.cas["caClients"])
-				cfg.ClientCAs = pool
-			case "verifyifgiven-otherca": // verifies what it gets against another CA: the RA's certificate is refused
-				cfg.ClientAuth = tls.VerifyClientCertIfGiven
-				cfg.ClientCAs = otherPool
-			case "request":
-				cfg.ClientAuth = tls.RequestClientCert
-			case "require":
-				cfg.ClientAuth = tls.RequireAndVerifyClientCert
-				pool := x509.NewCertPool()
-				pool.AddCert(f.cas["caClients"])
-				cfg.ClientCAs = pool
-			}
-			s.srv = grpc.NewServer(grpc.Creds(credentials.NewTLS(cfg)))
-			pb.RegisterSigningServer(s.srv, s)
-			go s.srv.Serve(ln)
 		}
 		if ok {
 			return g, nil
@@ -308,8 +294,56 @@ func StartCAGroup(specs []CAServerSpec) (*CAGroup, error) {
 	return nil, fmt.Errorf("no common free port on the loopback aliases")
 }
 
+// startServer binds and serves one endpoint on the group's port.
+func (g *CAGroup) startServer(s *CAServer) error {
+	f := Farm()
+	sp := s.Spec
+	ln, err := net.Listen("tcp", fmt.Sprintf("%s:%d", sp.IP, g.Port))
+	if err != nil {
+		return err
+	}
+	s.ln = ln
+	id := sp.Identity
+	if id == "" {
+		id = "caA"
+	}
+	cfg := &tls.Config{Certificates: []tls.Certificate{f.ServerCert(id, sp.IP)}, MinVersion: sp.MinTLS, MaxVersion: sp.MaxTLS}
+	if cfg.MinVersion == 0 {
+		cfg.MinVersion = tls.VersionTLS10
+	}
+	otherPool := x509.NewCertPool()
+	otherPool.AddCert(f.cas["caForeign"])
+	switch sp.ClientAuth {
+	case "request-otherca": // asks, names a CA that did not issue the RA's certificate, enforces nothing
+		cfg.ClientAuth = tls.RequestClientCert
+		cfg.ClientCAs = otherPool
+	case "verifyifgiven": // verifies what it gets against the right client CA
+		cfg.ClientAuth = tls.VerifyClientCertIfGiven
+		pool := x509.NewCertPool()
+		pool.AddCert(f.cas["caClients"])
+		cfg.ClientCAs = pool
+	case "verifyifgiven-otherca": // verifies what it gets against another CA: the RA's certificate is refused
+		cfg.ClientAuth = tls.VerifyClientCertIfGiven
+		cfg.ClientCAs = otherPool
+	case "request":
+		cfg.ClientAuth = tls.RequestClientCert
+	case "require":
+		cfg.ClientAuth = tls.RequireAndVerifyClientCert
+		pool := x509.NewCertPool()
+		pool.AddCert(f.cas["caClients"])
+		cfg.ClientCAs = pool
+	}
+	s.srv = grpc.NewServer(grpc.Creds(credentials.NewTLS(cfg)))
+	pb.RegisterSigningServer(s.srv, s)
+	go s.srv.Serve(ln)
+	return nil
+}
+
 // Stop shuts all endpoints down.
 func (g *CAGroup) Stop() {
+	if g.reserve != nil {
+		g.reserve.Close()
+	}
 	for _, s := range g.Servers {
 		if s.srv != nil {
 			s.srv.Stop()
